@@ -111,8 +111,20 @@ def write_num(ex, st, n, args):
 
 
 def convert_num(ex, st, n, args):
-    """convert_num[id](dest, obj, scalar, offset): returns 0 or -1"""
-    return IntV(z3.If(ex.fresh_bool('convert_ok'), 0, -1), 'int')
+    """convert_num[id](dest, obj, scalar, offset): returns 0 or -1; with
+    scalar != 0 the object is converted as a Python number, which fails for
+    the integer and real typecodes when it is a matrix"""
+    ok = ex.fresh_bool('convert_ok')
+    try:
+        idt = toint(ex.ev(args[0], st)).t
+        obj = ex.ev(args[2], st)
+        sc = toint(ex.ev(args[3], st)).t
+        if isinstance(obj, PtrV) and obj.obj is not None:
+            ex.axioms.append(z3.Implies(z3.And(ok, sc != 0, idt != 2),
+                                        z3.Not(obj.obj.ismat)))
+    except Unsupported:
+        pass
+    return IntV(z3.If(ok, 0, -1), 'int')
 
 
 def mtx_op(ex, st, n, args):
